@@ -1036,7 +1036,12 @@ class mulgrid(object):
                         col2.neighbour.add(c)
                         c.neighbour.add(col2)
                     del col.node[i[3]]
+                    n3.column.remove(col)
+                    col.get_area()
                     col.centre = col.centroid
+                    col2.num_layers = col.num_layers
+                    self.connection = dict([(tuple([c.name for c in con.column]), con)
+                                            for con in self.connectionlist])
                     self.add_column(col2)
                     self.add_connection(connection([col, col2]))
                     self.setup_block_name_index()
